@@ -64,7 +64,7 @@ pub(super) fn handle_prev_state<'i>(
                 .map_err(UncatchableError::from)?;
 
             verifier::verify_call(
-                argument_hash.as_ref().unwrap(),
+                resolved_argument_hash(argument_hash, &service_result_aggregate.argument_hash)?,
                 tetraplet,
                 &service_result_aggregate.argument_hash,
                 &current_tetraplet,
@@ -91,7 +91,7 @@ pub(super) fn handle_prev_state<'i>(
                 Some(call_result) => {
                     update_state_with_service_result(
                         tetraplet.clone(),
-                        argument_hash.expect("Result for joinable error").clone(),
+                        resolved_argument_hash(argument_hash, "a result of the call request")?.clone(),
                         output,
                         call_result,
                         exec_ctx,
@@ -122,7 +122,7 @@ pub(super) fn handle_prev_state<'i>(
 
             populate_context_from_data(
                 value.clone(),
-                argument_hash.as_ref().unwrap(),
+                resolved_argument_hash(argument_hash, "an executed state")?,
                 tetraplet.clone(),
                 met_result.trace_pos,
                 met_result.source,
@@ -207,6 +207,19 @@ fn handle_service_error(
     trace_ctx.meet_call_end(Failed(service_result_agg_cid));
 
     Err(error.into())
+}
+
+/// A call state with a result can be met only if the call arguments are resolved: the peer that executed
+/// the call had them, and they are a part of the same data. Malicious data could violate this.
+fn resolved_argument_hash<'hash>(
+    argument_hash: Option<&'hash Rc<str>>,
+    stored_value: &str,
+) -> Result<&'hash Rc<str>, UncatchableError> {
+    argument_hash.ok_or_else(|| UncatchableError::InstructionParametersMismatch {
+        param: "call argument_hash",
+        expected_value: "unresolved call arguments".to_owned(),
+        stored_value: stored_value.to_owned(),
+    })
 }
 
 fn try_to_service_result(
